@@ -54,6 +54,7 @@ def run(ck):
     model = models[variant]
     ck.log("requests: %d; tree matches model variant %s with %d differing answers" % (n, variant, ndiff))
     reported = set()
+    corr = []
     classes = set()
     stage_hist = collections.Counter()
     failing = 0
@@ -86,11 +87,10 @@ def run(ck):
                     "how_to_replay": "echo '<request>' | work/C40/c39h   (harness/C39/harness.cxx, built from the current tree)"},
                    True)
         elif a_raw != m_raw:
-            # differences that only concern C39 (operator kind of a flagged prediction) do not touch s1
-            report("corr:integrate:" + (a["msg"] if a["ok"] else "unparsed"),
-                   "correspondence Model.lean vs %s broken (s1 untouched-on-failure still holds on the implementation)" % base.SITE,
-                   {"request": base.line(sc), "script": sc, "implementation": a_raw,
-                    "model_variant": "%s/%s" % variant, "model": m_raw}, False)
+            corr.append({"request": base.line(sc), "implementation": a_raw, "model": m_raw})
+    if corr:
+        report("corr:integrate", "correspondence Model.lean (variant %s/%s) vs %s broken on %d answers on which s1 is still untouched on failure"
+               % (variant[0], variant[1], base.SITE, len(corr)), {"differing_answers": len(corr), "examples": corr[:5]}, False)
     e2e_n, e2e_fail = 0, 0
     if not ck.quick:
         e2e = base.run_e2e(ck, rng)
